@@ -369,3 +369,102 @@ pub fn run_encode_4gib(sim: &Sim, idx: u64) {
     sim.probe("beyond-4gib");
     judge_encode(sim, role, None, &obs, &before, &[], &[], Some(false), Code::ResourceExhausted, usize::MAX);
 }
+
+// ------------------------------------------------------------------------------------------------
+// Limits through the generated client/server plumbing (all four call shapes, asymmetric limits).
+
+use crate::c02::{self, CallPlan, SHAPES};
+use crate::handlers::{Handler, Script};
+use crate::loopback::Loopback;
+use simcore::{drive, Drive};
+
+pub fn run_plumbing(sim: &Sim, _idx: u64) {
+    let shape = sim.draw(4) as usize;
+    let lim = |sim: &Sim| -> Option<usize> { sim.pick(&[None, None, Some(20usize), Some(100), Some(1000)]) };
+    let (server_dec, server_enc, client_dec, client_enc) = (lim(sim), lim(sim), lim(sim), lim(sim));
+    let size = |sim: &Sim| sim.pick(&[0usize, 5, 19, 20, 21, 99, 100, 101, 999, 1000, 1001, 3000]);
+    let nreq = if shape == 1 || shape == 3 { sim.range(1, 4) } else { 1 };
+    let nresp = if shape >= 2 { sim.range(1, 4) } else { 1 };
+    let req_msgs: Vec<Vec<u8>> = (0..nreq).map(|_| sim.bytes(size(sim))).collect();
+    let resp_msgs: Vec<Vec<u8>> = (0..nresp).map(|_| sim.bytes(size(sim))).collect();
+    let plan = CallPlan {
+        id: 1,
+        shape,
+        req_md: vec![],
+        req_msgs: req_msgs.clone(),
+        tag: 0,
+        script: Script { msgs: resp_msgs.clone(), src_pending: sim.pick(&[0u64, 0, 40]), ..Default::default() },
+        req_src_pending: sim.pick(&[0u64, 0, 40]),
+        extra_polls: 0,
+    };
+    sim.nontrivial();
+    sim.sample(|| format!("plumbing: {} server dec/enc {server_dec:?}/{server_enc:?} client dec/enc {client_dec:?}/{client_enc:?} req {:?} resp {:?}", SHAPES[shape], req_msgs.iter().map(|m| m.len()).collect::<Vec<_>>(), resp_msgs.iter().map(|m| m.len()).collect::<Vec<_>>()));
+    sim.ev(|| format!("config plumbing: {} server dec/enc {server_dec:?}/{server_enc:?} client dec/enc {client_dec:?}/{client_enc:?} req {:?} resp {:?}", SHAPES[shape], req_msgs.iter().map(|m| m.len()).collect::<Vec<_>>(), resp_msgs.iter().map(|m| m.len()).collect::<Vec<_>>()));
+    crate::rawcodec::set_cfg(RawCfg { enc_yield: sim.pick(&[0usize, 64, 32768]), ..RawCfg::default() });
+    let handler = Handler::new(sim);
+    handler.add_script(1, plan.script.clone());
+    let mut server = crate::rawsvc::raw_server::RawServer::new(handler.clone());
+    if let Some(l) = server_dec {
+        server = server.max_decoding_message_size(l);
+    }
+    if let Some(l) = server_enc {
+        server = server.max_encoding_message_size(l);
+    }
+    let lb = Loopback::new(sim, server);
+    let mut client = crate::rawsvc::raw_client::RawClient::new(lb);
+    if let Some(l) = client_dec {
+        client = client.max_decoding_message_size(l);
+    }
+    if let Some(l) = client_enc {
+        client = client.max_encoding_message_size(l);
+    }
+    let obs = {
+        let fut = c02::perform::<RawMsg, _>(sim, &mut client, &plan);
+        let mut fut = std::pin::pin!(fut);
+        match drive(sim, fut.as_mut(), 2_000_000) {
+            Drive::Done(o) => o,
+            Drive::Hang { polls } => return sim.violation("C06/lost-wakeup", format!("call Pending with no wake-up after {polls} polls")),
+            Drive::Budget { polls } => return sim.violation("C06/livelock", format!("call not finished after {polls} polls")),
+            Drive::Stalled { .. } => return,
+        }
+    };
+    // ---- reference: where does the first refusal happen?
+    let ce = client_enc.unwrap_or(usize::MAX);
+    let sd = server_dec.unwrap_or(DEFAULT_DEC_LIMIT);
+    let se = server_enc.unwrap_or(usize::MAX);
+    let cd = client_dec.unwrap_or(DEFAULT_DEC_LIMIT);
+    let used_req: &[Vec<u8>] = if shape == 0 || shape == 2 { &req_msgs[..1] } else { &req_msgs[..] };
+    let req_refused = used_req.iter().any(|m| m.len() > ce || m.len() > sd);
+    let mut delivered: Vec<Vec<u8>> = vec![];
+    let mut resp_refused = false;
+    if !req_refused {
+        for m in &resp_msgs {
+            if m.len() > se || m.len() > cd {
+                resp_refused = true;
+                break;
+            }
+            delivered.push(m.clone());
+        }
+    }
+    let who = format!("{} (server dec/enc {server_dec:?}/{server_enc:?}, client dec/enc {client_dec:?}/{client_enc:?}, req {:?}, resp {:?})", SHAPES[shape], used_req.iter().map(|m| m.len()).collect::<Vec<_>>(), resp_msgs.iter().map(|m| m.len()).collect::<Vec<_>>());
+    let err_code = obs.call_err.as_ref().or(obs.stream_err.as_ref()).map(|e| e.code());
+    if req_refused || resp_refused {
+        sim.probe(if req_refused { "plumbing-request-over-limit" } else { "plumbing-response-over-limit" });
+        match err_code {
+            Some(Code::OutOfRange) => {}
+            other => sim.violation("C06/limit-not-enforced-through-generated-plumbing", format!("{who}: a message is over a configured limit, but the caller sees {:?} (unary message {:?}, {} stream items, clean_end {})", other, obs.unary_msg.as_ref().map(|m| m.len()), obs.items.len(), obs.clean_end)),
+        }
+        if shape >= 2 && !req_refused && obs.items != delivered {
+            sim.violation("C06/messages-before-the-refused-one-not-delivered", format!("{who}: expected {:?} before the status, caller got {:?}", delivered.iter().map(|m| m.len()).collect::<Vec<_>>(), obs.items.iter().map(|m| m.len()).collect::<Vec<_>>()));
+        }
+    } else {
+        sim.probe("plumbing-within-limits");
+        if let Some(c) = err_code {
+            sim.violation("C06/message-within-limits-refused-through-generated-plumbing", format!("{who}: every message is within every limit, caller sees {c:?}"));
+        } else if shape >= 2 && obs.items != delivered {
+            sim.violation("C06/messages-lost-through-generated-plumbing", format!("{who}: caller got {:?}", obs.items.iter().map(|m| m.len()).collect::<Vec<_>>()));
+        } else if shape <= 1 && obs.unary_msg.as_ref() != delivered.first() {
+            sim.violation("C06/messages-lost-through-generated-plumbing", format!("{who}: caller got {:?}", obs.unary_msg.as_ref().map(|m| m.len())));
+        }
+    }
+}
